@@ -382,9 +382,63 @@ def r87(ctx, fx):
         ctx.fail_closed(rid, "fewer than 3 look-aheads found in the parser (%d)" % n)
 
 
+# keywords that continue a statement and may stand on a line of their own: what has to be in front of them is multi-line trivia
+CONTINUATION_KEYWORDS = {
+    "else": "the formatter itself writes `}` / `else` / `{` on three lines with `braces.position = new-line`",
+    "from": "an import list may be broken before `from`",
+}
+
+
+def r88(ctx, fx):
+    rid = ctx.rule("R8.8", "a keyword that continues a statement (`else` behind the block of an `.if`, `from` behind an import list) is matched behind the multi-line "
+                   "trivia wrapper `mws`, not the single-line `ws` — directly or through a helper that is given the keyword: with `ws` a line break in front of it "
+                   "(the layout the project's own formatter produces for `else`) is a syntax error while a blank is not")
+    from .c11 import _anc_walk
+
+    def wrapper(anc):
+        for p_, key in reversed(anc):
+            if p_.get("k") == "call":
+                c = str(lib.hcallee(p_) or "")
+                if c.endswith(("parser::ws", "parser::mws")):
+                    return c.rsplit("::", 1)[-1]
+        return None
+    fns = [f for f in fx.all_fns("mos_core") if f.kind == "fn" and f.d.get("hir") and f.path.startswith("mos_core::parser::") and "::tests::" not in f.path]
+    helpers = {}
+    for f in fns:
+        params = {q["name"] for prm in f.hir.get("params", []) for q in lib.hwalk(prm) if q.get("k") == "bind"}
+        for x, anc in _anc_walk(f.hir["body"]):
+            if x.get("k") == "call" and str(lib.hcallee(x) or "").endswith("tag_no_case") and x.get("args") and lib.hpath(lib.strip(x["args"][0])) in params:
+                helpers[f.path] = wrapper(anc)
+    found = {}
+    for f in fns:
+        for x, anc in _anc_walk(f.hir["body"]):
+            if x.get("k") != "call" or not x.get("args"):
+                continue
+            c = str(lib.hcallee(x) or "")
+            lit = lib.hlit(lib.strip(x["args"][0]))
+            if not (isinstance(lit, str) and lit.lower() in CONTINUATION_KEYWORDS):
+                continue
+            if c.endswith("tag_no_case"):
+                found.setdefault(lit.lower(), []).append((f, x.get("ln"), wrapper(anc)))
+            elif lib.norm(c) in {lib.norm(h) for h in helpers}:
+                w = helpers[[h for h in helpers if lib.norm(h) == lib.norm(c)][0]] or wrapper(anc)
+                found.setdefault(lit.lower(), []).append((f, x.get("ln"), w))
+    for kw in sorted(CONTINUATION_KEYWORDS):
+        sites = found.get(kw, [])
+        key = "keyword|%s" % kw
+        ctx.inst(rid, key, sample={"keyword": kw, "sites": [(f.path.rsplit("::", 1)[-1], ln, w) for f, ln, w in sites]})
+        if not sites:
+            ctx.fail_closed(rid, "the keyword `%s` was not found in the parser" % kw)
+        for f, ln, w in sites:
+            if w != "mws":
+                ctx.finding(rid, key, "`%s` is matched behind %s in %s: a line break in front of it is a syntax error, a blank is not — %s" % (
+                    kw, "`ws`, which stops at the line end," if w == "ws" else "no trivia wrapper", f.path.rsplit("::", 1)[-1], CONTINUATION_KEYWORDS[kw]), "%s:%s" % (f.file, ln))
+
+
 def run(ctx):
     fx = ctx.facts
     r87(ctx, fx)
+    r88(ctx, fx)
     kws = r81_83(ctx, fx)
     r82(ctx, fx, kws)
     r84(ctx, fx)
